@@ -1,21 +1,21 @@
-\* quick: extent-map query, inline refill, refill unit = 1 block, 2 readers x 1 read of 3 ranges, 1 eviction (explicit or sweep), 1 source fault
+\* quick: in-memory map, asynchronous writer, refill unit = 2 blocks, capacity 0 (every write -> forceRecycle sweep), no external eviction
 SPECIFICATION Spec
 CONSTANTS
   NF = 1
   SZ = 7
   BLK = 2
-  RU = 2
+  RU = 4
   Readers = {r1, r2}
   r1 = r1
   r2 = r2
   ReadSet <- RS_q3
   NReads = 1
-  MaxEv = 1
-  Async = FALSE
-  MaxRefilling = 2
-  Faults = 1
-  Fiemap = TRUE
-  CapFull = FALSE
+  MaxEv = 0
+  Async = TRUE
+  MaxRefilling = 1
+  Faults = 0
+  Fiemap = FALSE
+  CapFull = TRUE
   ReopenMax = 0
   Bug = "none"
 SYMMETRY Sym
